@@ -87,6 +87,14 @@ class World:
         # sys.modules entries need not be module objects (a module may replace itself there by any object: a lazy
         # proxy, a class instance): every second synthetic "module" is a plain object with an instance __dict__
         self.modobj = {m: (types.ModuleType(zz(m)) if k % 2 == 0 else PlainEntry(zz(m))) for k, m in enumerate(self.mods)}
+        # ... and a module is in sys.modules from the moment its import STARTS: every other real module object looks the
+        # way a module does while its body is still running (its spec says so)
+        import importlib.machinery
+        for k, m in enumerate(self.mods):
+            if k % 4 == 0:
+                spec = importlib.machinery.ModuleSpec(zz(m), None)
+                spec._initializing = True
+                self.modobj[m].__spec__ = spec
         self.cache = _glue.add_glue_as_needed.__kwdefaults__["_sys_modules_len_cache"]
         _verif.sink = self.sink
 
